@@ -10,6 +10,21 @@ NOT_APPLICABLE = {
 for _p in ["C%02d" % i for i in range(1, 21)]:
     NOT_APPLICABLE.setdefault(_p, PENDING)
 CLAIMED = {
+    "C03": {
+        "text": "Decides structural necessary conditions of faithful reading for all files: attribute bytes become model strings only through the central extractor with exactly one unescape and no caller unescapes again (who-may-access + taint); shared-formula children are produced by the relative-translation kernel with per-axis signed (child - anchor) offsets, never by the insert kernels; every ST_CellType value has a reader arm (t=\"d\" is a listed finding) and no reader-side value setter can clear the formula read from the same element. Does not decide agreement with an independent decoder on concrete files.",
+        "note": NOTE,
+        "technique": "taint / who-may-access over MIR field projections; typed-HIR dispatch tables vs ECMA ST_CellType; call-graph reachability; operand dataflow",
+    },
+    "C04": {
+        "text": "Decides structural necessary conditions of re-save stability for all files: exactly one escape and one unescape on the text and attribute channels (who-may-call for raw writers and BytesStart construction, wrapper sanitizers, every Event::Text consumer unescapes once, central attribute extractor unescapes once, no double unescape); for all 160+ structs with a live reader and writer every attribute read into the model is written back under the same name by the struct's writer closure (listed exceptions with reasons); every style table scans before it appends. Does not decide fixed-point equality of generations.",
+        "note": NOTE,
+        "technique": "reader/writer name-table agreement from typed HIR over all structs; who-may-call / taint over the call graph; dominator rule on scan loops",
+    },
+    "C05": {
+        "text": "Decides structural necessary conditions of style fidelity for all style assignments: each of the 22 content-key functions reads every field of its struct (listed exceptions); each interning table compares the element type's key on both operands and the whole-style lookup uses the derived PartialEq; no run of concatenated key components contains two variable-width components or a continuable finite-set element (key unambiguity); component ids are written from and read back against the same table; apply flags are set under the presence of their own component and consulted for it. Reader/writer symmetry of the style structs is decided by the crate-wide symmetry rule (C04.b). Does not decide equality of reloaded styles.",
+        "note": NOTE,
+        "technique": "field-coverage (E2) over MIR; key-template width classification from typed HIR format templates; same-source dataflow; control-dependence of apply flags",
+    },
     "C11": {
         "text": "Decides structural necessary conditions of lazy/eager equivalence for all access patterns: (typestate) wherever an element of the workbook's sheet list that may still be raw is passed to code touching any field that deserialisation fills (set L computed from the materialiser's reach), the use is dominated by a materialisation or control-dependent on is_deserialized(); the raw-sheet writer names the sheet part and its own relationships part from the same sheet number; the tables raw sheets index into (shared strings, cellXfs, fonts, fills, borders, style list) are never shrunk or reordered anywhere in the crate. Does not decide equality of lazily and eagerly loaded content.",
         "note": NOTE,
